@@ -243,6 +243,15 @@ pub fn run(tier: Tier) {
             }
         }
     }
+    // and the same budgeted call repeated (a caller retrying after a run-limit error), up to 8 times
+    for c in [Call::Run, Call::Authorize, Call::Query] {
+        for n in 3..=8usize {
+            let sq = vec![c; n];
+            if !seqs.contains(&sq) {
+                seqs.push(sq);
+            }
+        }
+    }
     let prog_ticks: Vec<(&Prog, u64)> = progs.iter().flat_map(|p| TICKS_NS.iter().map(move |t| (p, *t))).collect();
     prog_ticks.par_iter().for_each(|(p, tick_ns)| {
         let p: &Prog = p;
@@ -274,6 +283,12 @@ pub fn run(tier: Tier) {
         }
         for (cl, v) in [("0", 0u64), ("1tick", tick_ns), ("T-1tick", t_ns.saturating_sub(tick_ns)), ("T", t_ns), ("T+1tick", t_ns + tick_ns), ("2T", 2 * t_ns + tick_ns)] {
             lims.push(Lim { class: format!("max_time={cl}"), limits: AuthorizerLimits { max_iterations: unl_i, max_facts: unl_f, max_time: Duration::from_nanos(v) } });
+        }
+        for (cl, v) in [("L-1", l.saturating_sub(1)), ("L-2", l.saturating_sub(2))] {
+            if l >= 2 {
+                lims.push(Lim { class: format!("max_iterations={cl}+max_time=0"), limits: AuthorizerLimits { max_iterations: v, max_facts: unl_f, max_time: Duration::from_nanos(0) } });
+                lims.push(Lim { class: format!("max_iterations={cl}+max_time=1tick"), limits: AuthorizerLimits { max_iterations: v, max_facts: unl_f, max_time: Duration::from_nanos(tick_ns) } });
+            }
         }
         lims.push(Lim { class: "all-at-boundary".into(), limits: AuthorizerLimits { max_iterations: l + 1, max_facts: n + 1, max_time: Duration::from_nanos(t_ns + tick_ns) } });
         lims.push(Lim { class: "all-below-boundary".into(), limits: AuthorizerLimits { max_iterations: l, max_facts: n, max_time: Duration::from_nanos(t_ns) } });
@@ -324,6 +339,11 @@ pub fn run(tier: Tier) {
                             break;
                         }
                         Res::Completed => {
+                            // S4: the fixpoint of this program needs L productive iterations and the budget is cumulative over
+                            // the calls on one authorizer: with max_iterations < L no budgeted call can ever complete
+                            if call_is_budgeted(*c) && lim.limits.max_iterations < l && !seq[..ci].iter().any(|x| matches!(x, Call::AuthorizeWithBigLimits | Call::QueryWithBigLimits)) {
+                                ctx.violation_lazy(format!("C10/S4-completed-with-an-iteration-budget-below-what-the-program-needs/{}", p.family), detail);
+                            }
                             if call_is_budgeted(*c) {
                                 // S1: completion only within the budgets, counted cumulatively
                                 if m.iterations > lim.limits.max_iterations {
@@ -376,7 +396,7 @@ pub fn run(tier: Tier) {
         "call_outcomes": outcomes.into_inner().unwrap(),
         "exhaustive": true,
         "samples": samples_out.take(),
-        "rule": "every call sequence up to the depth (plus every pair of calls with a clone or a snapshot round trip in between) over {run, authorize, authorize_with_limits(big), query, query_all, query_with_limits(big), clone, snapshot->restore} on one Authorizer x every program (chains needing L iterations, fan-out, k-way joins = one expensive iteration, preloaded facts, mixed; in the authorizer or in a token block) x every limit class (each budget at 0, 1, boundary-1, boundary, boundary+1 around the program's own needs, others unlimited; all at / below the boundary); virtual clock: each candidate examined by the join iterator costs 1 microsecond in one pass and 300 ms in a second pass (consumed time then crosses whole seconds), reads are free; invariants S1 (completion only within cumulative budgets), S2 (overshoot after the deadline <= 32 x (facts + body predicates + 1) ticks), no panic",
+        "rule": "every call sequence up to the depth (plus every pair of calls with a clone or a snapshot round trip in between) over {run, authorize, authorize_with_limits(big), query, query_all, query_with_limits(big), clone, snapshot->restore} on one Authorizer x every program (chains needing L iterations, fan-out, k-way joins = one expensive iteration, preloaded facts, mixed; in the authorizer or in a token block) x every limit class (each budget at 0, 1, boundary-1, boundary, boundary+1 around the program's own needs, others unlimited; all at / below the boundary); virtual clock: each candidate examined by the join iterator costs 1 microsecond in one pass and 300 ms in a second pass (consumed time then crosses whole seconds), reads are free; invariants S1 (completion only within cumulative budgets), S4 (no call completes when max_iterations is below the number of iterations the program needs, however often the call is retried), S2 (overshoot after the deadline <= 32 x (facts + body predicates + 1) ticks), no panic",
     });
     ctx.finish(
         "model_checking",
